@@ -3,6 +3,7 @@
 package checks
 
 import (
+	"net"
 	"bytes"
 	"fmt"
 	"reflect"
@@ -264,8 +265,60 @@ func c09One(r *ev.Run, n *wire.N, what string) string {
 		}
 	}
 	c09Reuse[kind] = dec
+	// and into the value the bytes were encoded from - a user's own value, whose addresses need not
+	// have the representation the decoder would choose (net.IPv4 and net.ParseIP give 16-byte slices):
+	// decoding a header back into the value it came from gives what a fresh receiver gives
+	if own, oerr := bind.BuildPkt(n); oerr == nil && own != nil {
+		widenIPs(reflect.ValueOf(own), 0)
+		var odec any
+		oc := bind.CodecOf(own, func() any { return own })
+		if oc.Decode != nil {
+			if pn := safePkt(func() { odec, err = oc.Decode(append([]byte{}, b...)) }); pn != nil {
+				return bad("own-receiver-panic:"+kind, fmt.Sprintf("decoding into the value the bytes were encoded from panicked: %v", pn))
+			}
+			if err == nil {
+				if dr := dump.Dump(odec, pktDump); dr != dd0 {
+					return bad("own-receiver:"+kind, "decoding into the value the bytes were encoded from (addresses held as 16-byte slices) gives different field values than a fresh receiver: "+firstDiff(dd0, dr))
+				}
+				orc := bind.CodecOf(odec, func() any { return bind.FreshPkt(kind) })
+				var ob []byte
+				if pn := safePkt(func() { ob, _ = orc.Encode() }); pn != nil || !bytes.Equal(ob, b) {
+					return bad("own-receiver:"+kind, fmt.Sprintf("the value the bytes were encoded from, decoded into again, re-encodes to %x..., a fresh receiver to %x...", head(ob, 24), head(b, 24)))
+				}
+			}
+		}
+	}
 	r.Outcome("round-trip:" + kind)
 	return ""
+}
+
+// widenIPs turns every 4-byte net.IP reachable from v into its 16-byte form (the form net.IPv4 and
+// net.ParseIP return).
+func widenIPs(v reflect.Value, depth int) {
+	if depth > 12 || !v.IsValid() {
+		return
+	}
+	switch v.Kind() {
+	case reflect.Ptr, reflect.Interface:
+		if !v.IsNil() {
+			widenIPs(v.Elem(), depth+1)
+		}
+	case reflect.Struct:
+		for i := 0; i < v.NumField(); i++ {
+			f := v.Field(i)
+			if f.Type() == reflect.TypeOf(net.IP{}) {
+				if f.CanSet() && f.Len() == 4 {
+					f.Set(reflect.ValueOf(net.IP(f.Bytes()).To16()))
+				}
+				continue
+			}
+			widenIPs(f, depth+1)
+		}
+	case reflect.Slice:
+		for i := 0; i < v.Len() && i < 64; i++ {
+			widenIPs(v.Index(i), depth+1)
+		}
+	}
 }
 
 // c09Reuse holds, per kind, the receiver of the previous decode (reused for the next one).
@@ -587,6 +640,32 @@ func c13Packets(r *ev.Run, depth int) (subjects, seqs int64) {
 	corpus.Packets(false, func(t *wire.N) {
 		ks := map[string]bool{}
 		kindsIn(t, ks)
+		// one subject per distinct set of header kinds, list populations (none, one, several elements)
+		// and zero/non-zero checksums (a checksum of zero is "not computed": an encoder may be tempted
+		// to fill it in, in the value instead of in the bytes)
+		var walk func(x *wire.N)
+		walk = func(x *wire.N) {
+			if x == nil {
+				return
+			}
+			for name, l := range x.L {
+				c := len(l)
+				if c > 2 {
+					c = 2
+				}
+				ks[fmt.Sprintf("%s.%s:%d", x.K, name, c)] = true
+				for _, e := range l {
+					walk(e)
+				}
+			}
+			if v, ok := x.U["Checksum"]; ok && v == 0 {
+				ks[x.K+".Checksum=0"] = true
+			}
+			for _, c := range x.S {
+				walk(c)
+			}
+		}
+		walk(t)
 		key := fmt.Sprint(sorted2(ks))
 		if seen[key] {
 			return
